@@ -118,6 +118,17 @@ fn panic_message_from_info(info: &std::panic::PanicHookInfo<'_>) -> String {
 /// Run `f`, converting an unwind into `Err(message @ file:line)`.
 pub fn catch<R>(f: impl FnOnce() -> R) -> Result<R, String> {
     LAST_PANIC.with(|l| *l.borrow_mut() = None);
+    crate::alloc::subject_depth(1);
+    let r = std::panic::catch_unwind(std::panic::AssertUnwindSafe(f));
+    crate::alloc::subject_depth(-1);
+    match r {
+        Ok(r) => Ok(r),
+        Err(_) => Err(LAST_PANIC.with(|l| l.borrow_mut().take()).unwrap_or_else(|| "panic".into())),
+    }
+}
+/// Same for the harness's own top level: not a call into the subject (see alloc::subject_depth).
+pub fn catch_harness<R>(f: impl FnOnce() -> R) -> Result<R, String> {
+    LAST_PANIC.with(|l| *l.borrow_mut() = None);
     match std::panic::catch_unwind(std::panic::AssertUnwindSafe(f)) {
         Ok(r) => Ok(r),
         Err(_) => Err(LAST_PANIC.with(|l| l.borrow_mut().take()).unwrap_or_else(|| "panic".into())),
